@@ -15,11 +15,12 @@ import (
 )
 
 type SolveResult struct {
-	Status  string // "unsat", "sat", "unknown", "timeout", "error"
-	Solver  string
-	Seconds float64
-	Output  string // raw output of the deciding solver (model on sat)
-	All     map[string]string
+	Status       string // "unsat", "sat", "unknown", "timeout", "error"
+	Solver       string
+	Seconds      float64
+	Output       string // raw output of the deciding solver (model on sat)
+	All          map[string]string
+	RelaxedModel string
 }
 
 type solverSpec struct {
